@@ -194,3 +194,36 @@ func registerFmtModels(i *interpreter) {
 		return normStr(out)
 	}
 }
+
+// sort.Slice / sort.SliceStable use reflection to swap; modelled by a stable insertion sort that
+// calls the interpreted less function (a symbolic answer is a decision).
+func init() {
+	sortModel := func(fr *frame, args []value) value {
+		modelsHit["sort.Slice"]++
+		itf, ok := args[0].(iface)
+		if !ok {
+			panic(pathAbort{"unsupported: sort.Slice on a non-interface argument"})
+		}
+		s, ok := itf.v.([]value)
+		if !ok {
+			panic(pathAbort{"unsupported: sort.Slice on a non-slice"})
+		}
+		less := func(i, j int) bool {
+			switch r := call(fr.i, fr, token.NoPos, args[1], []value{i, j}).(type) {
+			case bool:
+				return r
+			case sym:
+				return ex.branch(r.t)
+			}
+			return false
+		}
+		for i := 1; i < len(s); i++ {
+			for j := i; j > 0 && less(j, j-1); j-- {
+				s[j], s[j-1] = s[j-1], s[j]
+			}
+		}
+		return nil
+	}
+	lateModels["sort.Slice"] = sortModel
+	lateModels["sort.SliceStable"] = sortModel
+}
